@@ -26,9 +26,10 @@ def run_call(c, variant):
         if op in ("count", "count0", "count1", "pairwise", "spacing"):
             rows = torch.tensor(c["rows"], dtype=torch.int64).reshape(-1, 4)
             form = variant % 3
-            dtype = [torch.int64, torch.int32, torch.float32, torch.uint8][(variant // 3) % 4]
-            if dtype == torch.uint8 and len(c["rows"]) > 20:
-                dtype = torch.int64          # counts are kept within the dtype range (at most 190 pairs for uint8)
+            dtype = [torch.int64, torch.int32, torch.float32, torch.uint8, torch.int8][(variant // 3) % 5]
+            # counts are kept within the dtype range: at most C(n, 2) pairs -- 253 for n = 23 (uint8), 120 for n = 16 (int8)
+            if (dtype == torch.uint8 and len(c["rows"]) > 23) or (dtype == torch.int8 and len(c["rows"]) > 16):
+                dtype = torch.int64
             if op.startswith("count"):
                 X = rows[:, :2]
                 if form == 1:
@@ -57,7 +58,12 @@ def run_call(c, variant):
             if op == "kmers":
                 y = kmod.kmers(x, c["k"])[0]
             else:
-                y = kmod.kmers(x, c["k"], scores=torch.tensor([c["sc"]], dtype=torch.float32))[0]
+                sc = torch.tensor([c["sc"]], dtype=[torch.float32, torch.float64, torch.int64][(variant // 3) % 3])
+                d0 = base.tdig(sc)
+                y = kmod.kmers(x, c["k"], scores=sc)[0]
+                y2 = kmod.kmers(x, c["k"], scores=sc)[0]            # the caller's score tensor is used again
+                if base.tdig(sc) != d0 or not bool((y == y2).all()):
+                    y = torch.full_like(y, -777.0)                    # scores were modified / the repeated call disagrees
         yy = intlist(y)
         if yy is None:
             ev["st"] = "ok"; ev["y"] = [-999999]
@@ -72,6 +78,13 @@ def run_call(c, variant):
 def gen_call(rng):
     r = rng.random()
     c = dict(op="", rows=[], E=0, N=0, D=0, sym=True, x=[], k=0, A=0, sc=[])
+    if r < 0.06:
+        # a densely annotated example: one annotation many times (pair counts close to the top of a narrow dtype, while squares of
+        # the occurrence count exceed it)
+        n = rng.randint(12, 23)
+        c["rows"] = [[0, rng.randrange(rng.choice([1, 1, 2])), s, s + 2] for s in range(n)]
+        c["op"] = "pairwise"; c["sym"] = rng.random() < 0.8
+        return c
     if r < 0.75:
         n = rng.choice([1, 2, 3, 5, 8, 13, 20, 30, 45, 60])
         E = rng.randint(1, 8); N = rng.randint(1, 10)
